@@ -383,6 +383,9 @@ def run_case(case):
         y = y.astype(np.complex64 if np.iscomplexobj(y) else np.float32)
     if case.get("npscalar") and np.ndim(alpha) == 0:
         alpha = np.float64(alpha)          # NumPy scalar instead of a Python float
+    elif np.ndim(alpha) == 0 and case["pseed"] % 11 == 4:
+        # an integer step size (Python int or NumPy integer)
+        alpha = pick(rng, [2, 3, np.int64(2), 1])
     sig = "%s|%s|%s|%dd%s" % (cls, inp, y.dtype.char, len(shape), "|big" if case.get("big") else "")
     if case["pseed"] % 3 == 1:
         # history: the object first rejects calls (wrong shape, wrong rank, no array), then
